@@ -125,6 +125,103 @@ def gen_case(rng):
     return {"kind": kind, "eps": eps, "aeps": aeps, "rects": rects}
 
 
+def gen_extra(rng):
+    """input classes the random stream reaches rarely or never: equal areas (the scan of create_stog stops at the
+    first candidate that is NOT LARGER than the best one), long lists (9, 10, 15, 16, 17, 31, 32, 33, 64, 100
+    branches), integer coordinates (Point / Shape built from Python ints), rectangles left of / below the origin,
+    straddling it or ending exactly at 0, lists given trunk-last / reversed / sorted by area"""
+    kind = rng.choice(["equal", "equal", "many", "ints", "negative", "negative", "order"])
+    eps = rng.choice([F(1, 1024), F(1, 64), F(0), F(1, 4096)])
+    aeps = rng.choice([F(1, 1024), F(1, 16), F(0)])
+    case = None
+    if kind == "equal":
+        a = F(rng.randrange(1, 6))
+        b = F(rng.randrange(1, 6))
+        x0, y0 = F(rng.randrange(2, 10)), F(rng.randrange(2, 10))
+        style = rng.choice(["twins", "twins3", "area-tie", "bigger-invalid"])
+        if style == "twins":               # two equal rectangles side by side: each is a trunk for the other
+            rects = [from_box((x0, y0, x0 + a, y0 + b)), from_box((x0 + a, y0, x0 + 2 * a, y0 + b))]
+        elif style == "twins3":            # three in a row: only the middle one is a trunk, all areas equal
+            rects = [from_box((x0 + i * a, y0, x0 + (i + 1) * a, y0 + b)) for i in range(3)]
+        elif style == "area-tie":          # trunk 2a x 2b with a branch a x 4b on its east side, flush with the south corner: same area
+            rects = [from_box((x0, y0, x0 + 2 * a, y0 + 4 * b)), from_box((x0 + 2 * a, y0, x0 + 4 * a, y0 + 4 * b)),
+                     from_box((x0, y0 + 4 * b, x0 + a, y0 + 5 * b))]
+        else:                              # the largest rectangle is no trunk, a smaller one is; another has the trunk's area
+            rects = [from_box((x0, y0, x0 + 2 * a, y0 + 2 * b)), from_box((x0 + 2 * a, y0, x0 + 3 * a, y0 + b)),
+                     from_box((x0, y0 + 2 * b, x0 + a, y0 + 3 * b)), from_box((x0 + 10 * a, y0, x0 + 12 * a, y0 + 2 * b))]
+            if rng.random() < 0.5:
+                rects = rects[:3]
+        rng.shuffle(rects)
+        case = {"kind": "equal/" + style, "eps": eps, "aeps": aeps, "rects": rects}
+    elif kind == "many":
+        k = rng.choice([9, 10, 15, 16, 17, 31, 32, 33, 64, 100])
+        d = F(1, 4)
+        north = (k + 1) // 2
+        x0, y0 = F(3), F(5)
+        Wd = north * d
+        rects = [from_box((x0, y0, x0 + Wd, y0 + 2))]
+        for i in range(k):
+            j, up = (i, True) if i < north else (i - north, False)
+            h = F(rng.randrange(1, 5), 4)
+            rects.append(from_box((x0 + j * d, y0 + 2, x0 + (j + 1) * d, y0 + 2 + h) if up else
+                                  (x0 + j * d, y0 - h, x0 + (j + 1) * d, y0)))
+        bad = rng.random() < 0.3
+        if bad:                            # one branch pulled away: no orthogon any more
+            i = rng.randrange(1, len(rects))
+            rects[i] = dict(rects[i], cy=rects[i]["cy"] + 10)
+        order = rng.choice(["trunk-first", "trunk-last", "shuffled"])
+        if order == "trunk-last":
+            rects = rects[1:] + rects[:1]
+        elif order == "shuffled":
+            rng.shuffle(rects)
+        case = {"kind": f"many/{k}", "eps": eps, "aeps": aeps, "rects": rects}
+    else:
+        base = gen_case(rng)
+        while len(base["rects"]) < 2 or base["kind"] == "degenerate":
+            base = gen_case(rng)
+        rects = base["rects"]
+        eps, aeps = base["eps"], base["aeps"]
+        if kind == "ints":
+            # every coordinate an integer, handed over as Python ints
+            m = 8
+            rects = [dict(r, cx=r["cx"] * m, cy=r["cy"] * m, w=r["w"] * m, h=r["h"] * m) for r in rects]
+            if not all(core.frac(r[f]).denominator == 1 for r in rects for f in ("cx", "cy", "w", "h")):
+                return gen_extra(rng)
+            case = {"kind": "ints", "eps": eps, "aeps": aeps, "rects": rects, "ints": True}
+        elif kind == "negative":
+            bs = [box(r) for r in rects]
+            how = rng.choice(["left", "straddle", "end-at-0", "both-axes"])
+            xs = sorted({b[0] for b in bs} | {b[2] for b in bs})
+            ys = sorted({b[1] for b in bs} | {b[3] for b in bs})
+            dx = {"left": xs[-1] + 3, "straddle": (xs[0] + xs[-1]) / 2, "end-at-0": xs[-1], "both-axes": rng.choice(xs)}[how]
+            dy = rng.choice(ys) if how == "both-axes" else F(0)
+            rects = [dict(r, cx=r["cx"] - dx, cy=r["cy"] - dy) for r in rects]
+            case = {"kind": "negative/" + how, "eps": eps, "aeps": aeps, "rects": rects}
+        else:
+            how = rng.choice(["reversed", "by-area", "by-area-desc", "trunk-last"])
+            ar = lambda r: core.frac(r["w"]) * core.frac(r["h"])
+            if how == "reversed":
+                rects = rects[::-1]
+            elif how == "by-area":
+                rects = sorted(rects, key=ar)
+            elif how == "by-area-desc":
+                rects = sorted(rects, key=ar, reverse=True)
+            else:
+                big = max(rects, key=ar)
+                rects = [r for r in rects if r is not big] + [big]
+            case = {"kind": "order/" + how, "eps": eps, "aeps": aeps, "rects": rects}
+    return case
+
+
+def mk_rect_c06(d, ints=False):
+    if not ints:
+        return fr.mk_rect(d)
+    from frame.geometry.geometry import Rectangle, Point, Shape
+    r = Rectangle(center=Point(int(d["cx"]), int(d["cy"])), shape=Shape(int(d["w"]), int(d["h"])),
+                  fixed=bool(d.get("fixed", False)), hard=bool(d.get("hard", False)), region=d.get("region", "_"))
+    return r
+
+
 def run_impl(case):
     if case.get("kind") == "hist":
         return run_hist_impl(case)
@@ -132,7 +229,7 @@ def run_impl(case):
     Rectangle.undefine_epsilon()
     Rectangle.set_epsilon(float(case["eps"]), float(case["aeps"]))
     try:
-        rects = [fr.mk_rect(d) for d in case["rects"]]
+        rects = [mk_rect_c06(d, case.get("ints", False)) for d in case["rects"]]
         for r in rects:
             r.location = Rectangle.StogLocation.NO_POLYGON
         pre = [r.find_location(s).name for r in rects[:3] for s in rects[:3]]
@@ -549,7 +646,10 @@ def run(ctx, out, replay=None):
     n = (4000 if ctx.quick() else 80000) * mult
     out.rule = ("trunk with 1-5 branches on random sides (flush with corners, partial extent), near misses (gap, overhang, "
                 "overlap, perturbation around eps), repeated rectangles, random layouts, degenerate thin rectangles, random "
-                "order; non-trivial = at least two rectangles; distinct by canonical hash.  Object histories: a pool built from such "
+                "order; non-trivial = at least two rectangles; distinct by canonical hash.  Extra stream: equal areas (twins, rows of "
+                "equal rectangles, a branch with the trunk's area, a larger rectangle that is no trunk), long lists (9..100 branches, "
+                "trunk first / last / shuffled, intact or with one branch pulled away), integer coordinates passed as Python ints, "
+                "rectangles left of / straddling / ending exactly at the origin, lists reversed or sorted by area.  Object histories: a pool built from such "
                 "a case, then 2-10 operations from templates (recognise, then replace one element - often the trunk - by a fresh "
                 "rectangle put in front; prepend / append a fresh one; move an element away in place and back; break first and "
                 "repair in place; a second group and lists mixing the groups; resize; arbitrary roles through the setter) or drawn at "
@@ -562,6 +662,9 @@ def run(ctx, out, replay=None):
     cases += fr.load_corpus("C06")
     while len(cases) < n:
         cases.append(gen_case(ctx.rng))
+    xrng = __import__("random").Random(f"C06-extra-{ctx.seed}")
+    for _ in range((300 if ctx.quick() else 4000) * mult):
+        cases.append(gen_extra(xrng))
     nh = (1500 if ctx.quick() else 15000) * mult
     hrng = __import__("random").Random(f"C06-hist-{ctx.seed}")
     for _ in range(nh):
